@@ -243,6 +243,10 @@ var (
 // is enumerated. 1 = everything. Set (and reset) by the caller around a sweep.
 var sweepStride, sweepOffset = 1, 0
 
+// sweepSelect, when set, decides per mutant (by its bytes) whether it is linted at all - a cheap way to give an
+// expensive oracle a fixed share of the neighbourhood.
+var sweepSelect func(der []byte) bool
+
 // sweepVariant post-processes a mutant tree (after the single edit); nil = the edit alone.
 type sweepVariant struct {
 	Name  string
@@ -342,6 +346,9 @@ func sweepBases(rec *stats.Rec, cover []sweepBase, extra []sweepVariant, withExp
 					op += "+" + vr.Name
 				}
 				c := engine.Case{Kind: b.Obj.Kind, DER: m.Encode(), Base: b.Obj.Name, Filters: filters, Ops: []string{fmt.Sprintf("sweep %s(%s)", where, op)}}
+				if sweepSelect != nil && !sweepSelect(c.DER) {
+					continue
+				}
 				run := engine.ExecuteReg(c, reg, cfg, withExp)
 				cases++
 				rec.Eval()
